@@ -530,6 +530,42 @@ func c17StressMain(arg string) {
 	for _, l := range listeners {
 		close(l.done)
 	}
+	// closing while discovery is busy, several times over with fresh wallets on the same directory: Close must return
+	if p.Listener {
+		for round := 0; round < 8 && len(out.Problems) == 0; round++ {
+			w2, err2 := fswallet.NewFilesystemWallet(ctx, conf)
+			if err2 != nil || w2.Initialize(ctx) != nil {
+				break
+			}
+			var batch []acct
+			for q := 0; q < 60; q++ {
+				key := big.NewInt(int64(920000 + round*1000 + q)).FillBytes(make([]byte, 32))
+				kp := secp256k1.KeyPairFromBytes(key)
+				batch = append(batch, acct{kp.Address, accts[0].doc})
+			}
+			go func() {
+				for _, a := range batch {
+					writeAccount(a)
+				}
+			}()
+			for q := 0; q < 3; q++ {
+				go func() {
+					for n := 0; n < 30; n++ {
+						_ = w2.Refresh(ctx)
+						_, _ = w2.GetAccounts(ctx)
+					}
+				}()
+			}
+			time.Sleep(time.Duration(500+r.Intn(6000)) * time.Microsecond)
+			done2 := make(chan struct{})
+			go func() { _ = w2.Close(); close(done2) }()
+			select {
+			case <-done2:
+			case <-time.After(10 * time.Second):
+				problem("Close did not return within 10s while key files were arriving and callers were refreshing (round %d)", round)
+			}
+		}
+	}
 	emitC17(out)
 }
 
